@@ -206,6 +206,9 @@ def gen_calls(rng, prog, cfg):
         if rng.random() < 0.5:
             calls.append({'solver': sv, 'display': rng.random() < 0.5,
                           'fault': {'kind': 'clock_step', 'steps': [rng.choice([-3600.0, 86400.0, -2e9])]}})
+        if eng == 'scipy' and prog['cls'] == 'MILP' and rng.random() < 0.7:
+            # buggify: the engine answers within its integrality tolerance only (legal), the call is otherwise healthy
+            calls.append({'solver': sv, 'display': False, 'fault': {'kind': 'int_noise', 'eps': rng.choice([4e-10, 3e-9, 5e-8])}})
         calls.append({'solver': sv, 'display': False})
         if rng.random() < 0.5:
             calls.append({'solver': sv, 'display': rng.random() < 0.3, 'soc': True, 'soc_healthy': True})
